@@ -32,6 +32,10 @@ STRENGTHENED = [
     ("seeded/C06-c", "comprehension target named like a captured variable that the iterable uses", "C06 callable form: module constant named like the loop variable, used inside the iterable (also caught by C04 unchanged)"),
     ("seeded/C09-c", "class call-back looked up on the class that defines an inherited method", "C09 model: Jet and Trk inherit eta() from Base; class-level call-backs on Base and/or the subclasses"),
     ("seeded/C10-c", "two dict literals with the same keys and different value types; the second feeds a conditional", "C10 classifier: branch types that are evident from the text (constants, comparisons, defined keys of followable dict literals, constant tuple indices) must pass; generator form pairing same-key dict literals with such conditionals"),
+    ("seeded/C14-c", "the package is the First() of a sequence of packages and the projection reaches it only after substitution", "typed generator: packages may be produced as First(Select(seq, w: package)); this also exposed the genuine defect D32 (attribute form)"),
+    ("seeded/C17-c", "operator call inside the callee expression of a call", "C17 (and C19): callee positions - immediately applied lambda, lambda picked from a list, lambda handed through a helper - in the random grammar and in the exhaustive stratum"),
+    ("seeded/C18-c", "a lambda-valued argument applied twice with different arguments (shared node rewritten in place)", "typed generator `higher_order`: (lambda f: f(a1) + f(a2))(lambda p: body) in C02 / C18"),
+    ("seeded/C19-c", "one-argument call of a function whose name is a piece of a shortcut name", "C19: 30 look-alike function names (pieces, other case, longer names) that must stay unchanged"),
     ("seeded/C08-c", "generic subclass with more type parameters than its base uses", "C08 skeleton: Tag(Box[K], Generic[K,V]), Tag2(Box[V], ...), Swap(Pair[U,T], ...), HalfPair(Pair[T,int]), It2(Iterable[V], ...), TagInts(Tag[int,V]); class names taken from typing. This extension also exposed the genuine defects D29 and D30"),
 ]
 
@@ -70,7 +74,7 @@ def main():
               "| change | what it needs | strengthening |", "|---|---|---|"]
     for a, b, c in STRENGTHENED:
         lines.append(f"| {a} | {b} | {c} |")
-    lines += ["", "Caught at the first attempt: seeded/C19, C19-b, C15, C15-b, C20, C20-b, C16, C16-b, C13, C14, C14-b, C09, C09-b, C12, C12-b, C03, C02-b, C04-b, C04-c, C07-b, C07-c, C08-b.",
+    lines += ["", "Caught at the first attempt: seeded/C19, C19-b, C15, C15-b, C20, C20-b, C16, C16-b, C13, C14, C14-b, C09, C09-b, C12, C12-b, C03, C02-b, C04-b, C04-c, C07-b, C07-c, C08-b, C11-c, C12-c, C13-c, C15-c, C16-c, C20-c.",
               "Recurring lesson: most seeded changes need either a *naming coincidence* (same binder / method / variable name in two roles) or",
               "*process-level history* (a cache or shared default filled by an earlier query); generators must produce both on purpose.", ""]
     p = os.path.join(HERE, "DESIGN.md")
